@@ -106,4 +106,30 @@ theorem stageRow_text (spec : Spec) {ord : List Str → List Str} (ho : IsPermOr
     · simp only [rowTable, passes_append, wsTok_eq, h4, combo_apply_passes]
       simp [passes]
 
+
+/-- **the texts of the single instance of a step that uses no parameter**: the step's texts after
+one pass per referenced workspace and the `$(WORKSPACE)` pass (no `Combination.apply`: a parameter
+token in such a step is, by `usedOf`, not a token of any parameter of the study) -/
+theorem stageFlat_text (spec : Spec) {ord : List Str → List Str} (ho : IsPermOracle ord)
+    (st : Step) (s s' : SS) (hu : usedOf spec s.used st = .ok [])
+    (h : stageStep spec ord s st = .ok s') :
+    ∃ (t : Table) (inst : Inst),
+      t.map (·.1) = (refsOf st).map (· ++ ".workspace".toList) ∧
+      inst.name = st.name ∧ inst.ws = makeSafePath spec.root [st.name] ∧
+      inst.cmd = passes (t ++ [("WORKSPACE".toList, inst.ws)]) st.cmd ∧
+      inst.restart = passes (t ++ [("WORKSPACE".toList, inst.ws)]) st.restart ∧
+      s'.g.insts = if s.g.hasNode inst.name then s.g.insts else s.g.insts ++ [inst] := by
+  unfold stageStep at h
+  simp only [hu, List.isEmpty_nil, ↓reduceIte] at h
+  split at h
+  · cases h
+  · rename_i cmd r hsub
+    obtain ⟨t, h1, _, h3, h4⟩ := substWs_passes _ _ _ _ _ _ hsub
+    obtain ⟨_, _, p3, _⟩ := place_exact ho _ _ _ _ _ _ h
+    refine ⟨t, _, h1, rfl, rfl, ?_, ?_, p3⟩
+    · simp only [passes_append, wsTok_eq, h3]
+      simp [passes]
+    · simp only [passes_append, wsTok_eq, h4]
+      simp [passes]
+
 end MaestroVerif.Expand
